@@ -10,6 +10,7 @@ python3 tools/rs2lean.py || true
 ( cd harness && cargo build --offline --no-default-features --features std --target-dir target/std )
 ( cd harness && cargo build --offline --no-default-features --features "" --target-dir target/nostd )
 ( cd harness && cargo build --offline --no-default-features --features with_serde --target-dir target/with_serde )
+( cd harness && RUSTFLAGS="-A unexpected_cfgs" cargo build --offline --no-default-features --features real_clock --target-dir target/real_clock )
 ( cd harness && cargo build --offline --no-default-features --features std --target-dir target/std-noopt --profile noopt )
 ( cd harness && cargo build --offline --no-default-features --features "" --target-dir target/nostd-noopt --profile noopt )
 echo setup-done
